@@ -1,102 +1,184 @@
 import DiscretModel.Lemmas.FtsRun
+import DiscretModel.Lemmas.FtsJson
 /-
 C17 — Full-text search returns exactly the rows whose current text matches.
 
-Model: `Model/Fts.lean` (index = set of (slot, word); the maintenance rule of `Node::write`; slots assigned
-as SQLite assigns rowids; search = rows joined on slot with the index). Statements quantify over every
-history, any number of sites, rows, words and model versions — no bound.
+Model: `Model/Fts.lean` (index = set of (slot, word) + one document record per indexed slot; the maintenance rule of
+`Node::write`; slots assigned as SQLite assigns rowids; search = rows joined on slot with the index; the text of a
+row = `extract_json` of its JSON). Statements quantify over every history, any number of sites, rows, words and
+model versions — no bound.
+
+How the statements are organised: ONE theorem, `C17_full_of`, for any setting `d` of the switches that describe
+where the code leaves the intended behaviour, over the histories the code handles with that setting
+(`admissibleRun`, `flagSafeRun`: decidable, computed along the run). Its instances:
+`Defects.none` — every history is admissible: the full statement (`C17_search_exact`, `C17_flag_follows_model`);
+`Defects.asImplemented` — /repo as it is (`C17_asImplemented`): each repair of /repo turns one switch off and
+thereby enlarges the class of histories, without any change to the theorem.
 -/
 namespace Discret.Fts
 
-/-- **C17 — full statement, intended behaviour (`Defects.none`).** After ANY history of creations, updates
+/-- **C17 for any setting of the switches — searches on the entities the engine indexes.** After any history
+    made of operations the code handles with the switches `d` (`Op.admissible`: deletions once the deletion
+    follows the index, ingestions once synchronised rows are indexed, model versions that change the flag of an
+    entity without re-indexing only while that entity has no row at the site), on every site, for every entity the
+    engine indexes and every word: the search returns exactly the rows whose current text contains the word. -/
+theorem C17_search_exact_of (d : Defects) (n : Nat) (ops : List Op)
+    (ha : admissibleRun (init d n) ops = true) :
+    ∀ s, s ∈ (runOps (init d n) ops).1.sites →
+      ∀ e, s.indexOn e = true → ∀ t, search s e t = matching s e t := by
+  intro s hs e he t
+  have := runOps_ginv ops (init d n) (ginv_init _ _) (fun _ => noTombs_init _ _) ha
+  exact search_eq_matching (this.1 s hs) e he t
+
+/-- the same for a search placed on the nested field `kids` of `Doc` -/
+theorem C17_nested_search_exact_of (d : Defects) (n : Nat) (ops : List Op)
+    (ha : admissibleRun (init d n) ops = true) :
+    ∀ s, s ∈ (runOps (init d n) ops).1.sites →
+      s.indexOn 0 = true → ∀ t, nsearch s t = nmatching s t := by
+  intro s hs he t
+  have := runOps_ginv ops (init d n) (ginv_init _ _) (fun _ => noTombs_init _ _) ha
+  exact nsearch_eq_nmatching (this.1 s hs) he t
+
+/-- **C17 for any setting of the switches — the full statement**: for every entity the model version in force
+    DECLARES indexed (not only those the engine happens to index), after any history the code handles
+    (`admissibleRun`) and whose model versions the engine's flags follow (`flagSafeRun`: any version once
+    `Entity::update` copies the flag). -/
+theorem C17_full_of (d : Defects) (n : Nat) (ops : List Op)
+    (ha : admissibleRun (init d n) ops = true) (hf : flagSafeRun (init d n) ops = true) :
+    ∀ s, s ∈ (runOps (init d n) ops).1.sites →
+      ∀ e, declaredOn s.declared e = true → ∀ t, search s e t = matching s e t := by
+  intro s hs e he t
+  have hflag : s.indexOn = declaredOn s.declared := runOps_flag ops (init d n) (flagOK_init _ _) hf s hs
+  exact C17_search_exact_of d n ops ha s hs e (by rw [hflag]; exact he) t
+
+/-- **C17 — full statement, intended behaviour (`Defects.none`)**: the instance of `C17_search_exact_of` with
+    every switch off, where EVERY history is admissible. After ANY history of creations, updates
     changing or removing text, deletions (followed or not by creations that reuse the slot), model versions
     toggling indexing and ingestions of new rows or newer versions, on EVERY site, for every entity the
     engine indexes and every word: the search returns exactly the rows whose current text contains the word. -/
 theorem C17_search_exact (n : Nat) (ops : List Op) :
     ∀ s, s ∈ (runOps (init Defects.none n) ops).1.sites →
-      ∀ e, s.indexOn e = true → ∀ t, search s e t = matching s e t := by
-  intro s hs e he t
-  have := runOps_ginv ops (init Defects.none n) (ginv_init _ _) (Or.inl ⟨rfl, rfl⟩)
-  exact search_eq_matching (this.1 s hs) e he t
+      ∀ e, s.indexOn e = true → ∀ t, search s e t = matching s e t :=
+  C17_search_exact_of Defects.none n ops (admissibleRun_none ops _ rfl)
 
 /-- **C17 (search placed on a nested field), intended behaviour.** After any history, a search placed on the
     sub-selection `kids` of `Doc` returns, under every parent, exactly the children whose current text contains the
     word — the child's text, never the parent's. -/
 theorem C17_nested_search_exact (n : Nat) (ops : List Op) :
     ∀ s, s ∈ (runOps (init Defects.none n) ops).1.sites →
-      s.indexOn 0 = true → ∀ t, nsearch s t = nmatching s t := by
-  intro s hs he t
-  have := runOps_ginv ops (init Defects.none n) (ginv_init _ _) (Or.inl ⟨rfl, rfl⟩)
-  exact nsearch_eq_nmatching (this.1 s hs) he t
+      s.indexOn 0 = true → ∀ t, nsearch s t = nmatching s t :=
+  C17_nested_search_exact_of Defects.none n ops (admissibleRun_none ops _ rfl)
 
 /-- **C17 (which entities): with `Defects.none`, "the engine indexes `e`" is "the model version in force
     declares an index for `e`"**, on every site after any history. -/
 theorem C17_flag_follows_model (n : Nat) (ops : List Op) :
-    ∀ s, s ∈ (runOps (init Defects.none n) ops).1.sites → s.indexOn = declaredOn s.declared := by
-  have key : ∀ (ops : List Op) (st : State), st.d.toggleIgnored = false → (∀ s, s ∈ st.sites → FlagOK s) →
-      ∀ s, s ∈ (runOps st ops).1.sites → FlagOK s := by
-    intro ops
-    induction ops with
-    | nil => intro st _ h; exact h
-    | cons op rest ih =>
-      intro st hd h
-      simp only [runOps]
-      exact ih (step st op).1 (by rw [step_d]; exact hd) (step_flag st hd h op)
-  apply key ops (init Defects.none n) rfl
-  intro s hs
-  rw [(List.mem_replicate.mp hs).2]
-  rfl
+    ∀ s, s ∈ (runOps (init Defects.none n) ops).1.sites → s.indexOn = declaredOn s.declared :=
+  runOps_flag ops (init Defects.none n) (flagOK_init _ _) (flagSafeRun_of_followed ops _ rfl)
 
-/-- **C17_partial — the code as implemented.** For histories made of local creations, local updates
-    (changing or removing text), model versions and searches — on any number of sites, but without
+/-- the two together: **with every switch off the full statement holds after every history** (corollary of
+    `C17_full_of`) -/
+theorem C17_full_none (n : Nat) (ops : List Op) :
+    ∀ s, s ∈ (runOps (init Defects.none n) ops).1.sites →
+      ∀ e, declaredOn s.declared e = true → ∀ t, search s e t = matching s e t :=
+  C17_full_of Defects.none n ops (admissibleRun_none ops _ rfl) (flagSafeRun_of_followed ops _ rfl)
+
+/-- **C17 — /repo as it is (`Defects.asImplemented`)**: the full statement over the histories the code handles.
+    With the switches as they stand in `Model/Fts.lean` the guards read: no deletion, no ingestion, no model
+    version that changes a declaration. Each repair proposed in `findings/C17-*.patch` turns one switch off
+    (`.verif.patch`) and the same theorem then covers deletions (locally and through synchronised deletion
+    records, with reuse of the slot) / ingestion of new rows and newer versions / every model version that
+    changes the flag of an entity while it has no row at the site. What stays excluded after the three repairs:
+    a model version that switches the index of an entity on or off while rows of it exist (nothing is re-indexed:
+    `C17_breaks_toggleNoReindex`). -/
+theorem C17_asImplemented (n : Nat) (ops : List Op)
+    (ha : admissibleRun (init Defects.asImplemented n) ops = true)
+    (hf : flagSafeRun (init Defects.asImplemented n) ops = true) :
+    ∀ s, s ∈ (runOps (init Defects.asImplemented n) ops).1.sites →
+      ∀ e, declaredOn s.declared e = true → ∀ t, search s e t = matching s e t :=
+  C17_full_of Defects.asImplemented n ops ha hf
+
+/-- **C17_partial — the code as implemented, entities the ENGINE indexes.** For histories made of local creations,
+    local updates (changing or removing text), model versions and searches — on any number of sites, but without
     deletions and without ingestion — the search is exact for every entity the engine indexes.
-    Missing for the full statement: deletions (stale entries in a reusable slot), ingested rows and
-    versions (written with indexing off), and index flags changed by a later model version (ignored):
-    witnesses below. -/
-theorem C17_partial (n : Nat) (ops : List Op) (hg : ∀ op, op ∈ ops → op.localOnly = true) :
+    The second hypothesis is void as long as `Entity::update` ignores later flags (`Or.inl rfl`); once it copies
+    them, a model version must not change the flag of an entity that has rows (`admissibleRun`).
+    Missing for the full statement: see `C17_asImplemented` and the witnesses below. -/
+theorem C17_partial (n : Nat) (ops : List Op) (hg : ∀ op, op ∈ ops → op.localOnly = true)
+    (hm : Defects.asImplemented.toggleIgnored = true ∨ admissibleRun (init Defects.asImplemented n) ops = true) :
     ∀ s, s ∈ (runOps (init Defects.asImplemented n) ops).1.sites →
       ∀ e, s.indexOn e = true → ∀ t, search s e t = matching s e t := by
-  intro s hs e he t
-  have := runOps_ginv ops (init Defects.asImplemented n) (ginv_init _ _) (Or.inr hg)
-  exact search_eq_matching (this.1 s hs) e he t
+  apply C17_search_exact_of
+  rcases hm with hm | hm
+  · exact admissibleRun_of_localOnly ops _ hm hg
+  · exact hm
 
 /-- the nested search under the same guard as `C17_partial` (references between local rows included) -/
-theorem C17_nested_partial (n : Nat) (ops : List Op) (hg : ∀ op, op ∈ ops → op.localOnly = true) :
+theorem C17_nested_partial (n : Nat) (ops : List Op) (hg : ∀ op, op ∈ ops → op.localOnly = true)
+    (hm : Defects.asImplemented.toggleIgnored = true ∨ admissibleRun (init Defects.asImplemented n) ops = true) :
     ∀ s, s ∈ (runOps (init Defects.asImplemented n) ops).1.sites →
       s.indexOn 0 = true → ∀ t, nsearch s t = nmatching s t := by
-  intro s hs he t
-  have := runOps_ginv ops (init Defects.asImplemented n) (ginv_init _ _) (Or.inr hg)
-  exact nsearch_eq_nmatching (this.1 s hs) he t
+  apply C17_nested_search_exact_of
+  rcases hm with hm | hm
+  · exact admissibleRun_of_localOnly ops _ hm hg
+  · exact hm
 
-/-! ### where the code as implemented breaks the full statement (each confirmed on the real engine) -/
+/-! ### the text of a row -/
+
+/-- **`extract_json`** (`node.rs:1004-1025`): the indexed text of a row is the strings of its JSON value at any
+    depth — array elements and object VALUES, never keys, never numbers, booleans or null — in the order of the
+    value, each followed by one space. -/
+theorem C17_text_is_the_strings (j : Json) :
+    extractJson j = (strings j).flatMap fun s => s ++ [' '] := extractJson_eq j
+
+/-! ### where the code breaks the full statement (each confirmed on the real engine)
+
+The witnesses are stated on `Defects.beforeFix` (the code before the repairs of `findings/C17-*.patch`), and for
+each switch on the setting where ONLY that switch is on. -/
 
 /-- what a site answers / should answer for entity `e` and word `t` -/
 def probe (st : State) (e : Ent) (t : Word) : List (List Nat × List Nat) :=
   st.sites.map fun s => (search s e t, matching s e t)
 
+def onlyDelete : Defects := { Defects.none with deleteLeavesIndex := true }
+def onlyIngest : Defects := { Defects.none with ingestUnindexed := true }
+def onlyToggle : Defects := { Defects.none with toggleIgnored := true }
+/-- the three repairs made: what stays of `Defects.beforeFix` -/
+def afterFixes : Defects := { Defects.none with toggleNoReindex := true }
+
 /-- **C17_breaks_deleteLeavesIndex** (`node.rs:297-301`, candidates 24 and 31). Row 1 ("w5") is deleted,
     its index entry stays; row 2 ("w6") is created in the slot SQLite hands out again; the engine accepts the
     second entry for the slot (no constraint error), so searching "w5" returns row 2: a stale hit. -/
 theorem C17_breaks_deleteLeavesIndex :
-    probe (runOps (init Defects.asImplemented 1) [.new 0 1 0 [5], .del 0 1, .new 0 2 0 [6]]).1 0 5
-      = [([2], [])] := by decide
+    probe (runOps (init Defects.beforeFix 1) [.new 0 1 0 [5], .del 0 1, .new 0 2 0 [6]]).1 0 5 = [([2], [])] ∧
+    probe (runOps (init onlyDelete 1) [.new 0 1 0 [5], .del 0 1, .new 0 2 0 [6]]).1 0 5 = [([2], [])] := by
+  decide
+
+/-- the same through a synchronised deletion record: site 1 holds row 1 in its highest slot, receives the
+    deletion, then creates row 2 in that slot -/
+theorem C17_breaks_deleteLeavesIndex_synchronised :
+    probe (runOps (init onlyDelete 2) [.new 0 1 0 [5], .pull 1 0, .del 0 1, .pull 1 0, .new 1 2 0 [6]]).1 0 5
+      = [([], []), ([2], [])] := by decide
 
 theorem C17_fixed_deleteLeavesIndex :
-    probe (runOps (init Defects.none 1) [.new 0 1 0 [5], .del 0 1, .new 0 2 0 [6]]).1 0 5 = [([], [])] := by
+    probe (runOps (init Defects.none 1) [.new 0 1 0 [5], .del 0 1, .new 0 2 0 [6]]).1 0 5 = [([], [])] ∧
+    probe (runOps (init Defects.none 2) [.new 0 1 0 [5], .pull 1 0, .del 0 1, .pull 1 0, .new 1 2 0 [6]]).1 0 5
+      = [([], []), ([], [])] := by
   decide
 
 /-- **C17_breaks_ingestUnindexed (insert)** (`node.rs:538-568`). A row received from a peer is written
     with indexing off: site 1 holds row 1 ("w5") and does not find it. -/
 theorem C17_breaks_ingestUnindexed_insert :
-    probe (runOps (init Defects.asImplemented 2) [.new 0 1 0 [5], .pull 1 0]).1 0 5
-      = [([1], [1]), ([], [1])] := by decide
+    probe (runOps (init Defects.beforeFix 2) [.new 0 1 0 [5], .pull 1 0]).1 0 5 = [([1], [1]), ([], [1])] ∧
+    probe (runOps (init onlyIngest 2) [.new 0 1 0 [5], .pull 1 0]).1 0 5 = [([1], [1]), ([], [1])] := by decide
 
 /-- **C17_breaks_ingestUnindexed (update)**. Site 0 indexed row 1 as "w5"; the newer version "w6" made
     on site 1 comes back through synchronisation without touching the index: on site 0 "w5" still finds
     the row (stale) and "w6" does not (missed). -/
 theorem C17_breaks_ingestUnindexed_update :
-    let st := (runOps (init Defects.asImplemented 2) [.new 0 1 0 [5], .pull 1 0, .upd 1 1 [6], .pull 0 1]).1
-    (probe st 0 5).head? = some ([1], []) ∧ (probe st 0 6).head? = some ([], [1]) := by decide
+    let st := (runOps (init Defects.beforeFix 2) [.new 0 1 0 [5], .pull 1 0, .upd 1 1 [6], .pull 0 1]).1
+    let st' := (runOps (init onlyIngest 2) [.new 0 1 0 [5], .pull 1 0, .upd 1 1 [6], .pull 0 1]).1
+    (probe st 0 5).head? = some ([1], []) ∧ (probe st 0 6).head? = some ([], [1]) ∧
+    (probe st' 0 5).head? = some ([1], []) ∧ (probe st' 0 6).head? = some ([], [1]) := by decide
 
 theorem C17_fixed_ingestUnindexed :
     let st := (runOps (init Defects.none 2) [.new 0 1 0 [5], .pull 1 0, .upd 1 1 [6], .pull 0 1]).1
@@ -106,28 +188,84 @@ theorem C17_fixed_ingestUnindexed :
     without index; model version 2 declares one; the engine keeps the old flag, so rows of `Note` —
     even those written afterwards — are never found. -/
 theorem C17_breaks_toggleIgnored :
-    let st := (runOps (init Defects.asImplemented 1) [.model 0 2, .new 0 1 1 [5]]).1
-    (st.sites.map fun s => declaredOn s.declared 1) = [true] ∧ probe st 1 5 = [([], [1])] := by decide
+    let st := (runOps (init Defects.beforeFix 1) [.model 0 2, .new 0 1 1 [5]]).1
+    let st' := (runOps (init onlyToggle 1) [.model 0 2, .new 0 1 1 [5]]).1
+    (st.sites.map fun s => declaredOn s.declared 1) = [true] ∧ probe st 1 5 = [([], [1])] ∧
+    (st'.sites.map fun s => declaredOn s.declared 1) = [true] ∧ probe st' 1 5 = [([], [1])] := by decide
 
 theorem C17_fixed_toggleIgnored :
     probe (runOps (init Defects.none 1) [.new 0 1 1 [5], .model 0 2, .new 0 2 1 [5, 6]]).1 1 5
-      = [([1, 2], [1, 2])] := by decide
+      = [([1, 2], [1, 2])] ∧
+    -- the repair of /repo (the flag is copied): rows written after the version that declares the index are found
+    probe (runOps (init afterFixes 1) [.model 0 2, .new 0 1 1 [5]]).1 1 5 = [([1], [1])] := by decide
+
+/-- **C17_breaks_toggleNoReindex — what the three repairs leave.** `Entity::update` copies the flag and nothing
+    else: (1) row 1 of `Note`, written while `Note` was declared without index, is not found once version 2
+    declares one; (2) row 1 indexed as "w5", rewritten as "w6" while the index was declared off, is found by
+    "w5" and not by "w6" once the index is declared again. -/
+theorem C17_breaks_toggleNoReindex :
+    probe (runOps (init afterFixes 1) [.new 0 1 1 [5], .model 0 2]).1 1 5 = [([], [1])] ∧
+    (let st := (runOps (init afterFixes 1) [.model 0 2, .new 0 1 1 [5], .model 0 0, .upd 0 1 [6], .model 0 2]).1
+     probe st 1 5 = [([1], [])] ∧ probe st 1 6 = [([], [1])]) := by decide
 
 /-! ### non-vacuity -/
 
 -- the engine indexes `Doc` (entity 0) from the start, on every site
 example : ((init Defects.asImplemented 2).sites.map fun s => s.indexOn 0) = [true, true] := by decide
 
--- a history meeting the guard of `C17_partial`, with rows that match, rows that stopped matching and a removed text
-example : (∀ op, op ∈ [Op.new 0 1 0 [5, 6], .new 0 2 0 [6], .upd 0 1 [7], .clr 0 2, .new 0 3 0 [6, 7], .model 0 1]
+-- a history meeting the guards of `C17_asImplemented` and `C17_partial` whatever repairs have been made, with rows
+-- that match, rows that stopped matching and a removed text
+example : (∀ op, op ∈ [Op.new 0 1 0 [5, 6], .new 0 2 0 [6], .upd 0 1 [7], .clr 0 2, .new 0 3 0 [6, 7], .model 0 0]
       → op.localOnly = true) ∧
+    admissibleRun (init Defects.asImplemented 1)
+      [.new 0 1 0 [5, 6], .new 0 2 0 [6], .upd 0 1 [7], .clr 0 2, .new 0 3 0 [6, 7], .model 0 0] = true ∧
+    flagSafeRun (init Defects.asImplemented 1)
+      [.new 0 1 0 [5, 6], .new 0 2 0 [6], .upd 0 1 [7], .clr 0 2, .new 0 3 0 [6, 7], .model 0 0] = true ∧
     (runOps (init Defects.asImplemented 1)
-      [.new 0 1 0 [5, 6], .new 0 2 0 [6], .upd 0 1 [7], .clr 0 2, .new 0 3 0 [6, 7], .model 0 1, .qall 0]).2.getLast?
+      [.new 0 1 0 [5, 6], .new 0 2 0 [6], .upd 0 1 [7], .clr 0 2, .new 0 3 0 [6, 7], .model 0 0, .qall 0]).2.getLast?
       = some (.all [(0, 6, [3]), (0, 7, [1, 3])]) := by
-  constructor
-  · intro op h; simp only [List.mem_cons, List.not_mem_nil, or_false] at h
-    rcases h with h | h | h | h | h | h <;> subst h <;> rfl
-  · decide
+  refine ⟨?_, by decide, by decide, by decide⟩
+  intro op h; simp only [List.mem_cons, List.not_mem_nil, or_false] at h
+  rcases h with h | h | h | h | h | h <;> subst h <;> rfl
+
+-- `C17_partial` with model versions that the engine ignores (the code before the flag repair)
+example : admissibleRun (init Defects.beforeFix 1)
+      [.new 0 1 0 [5, 6], .new 0 2 1 [6], .model 0 3, .upd 0 1 [7], .model 0 1, .new 0 3 0 [6, 7]] = true := by decide
+
+-- the classes of histories each repair adds (`Defects.beforeFix` with one, two, three switches turned off):
+-- (a) deletions, locally, with reuse of the slot
+example : admissibleRun (init { Defects.beforeFix with deleteLeavesIndex := false } 1)
+      [.new 0 1 0 [5], .new 0 2 0 [6], .del 0 2, .new 0 3 0 [7], .del 0 1, .upd 0 3 [5, 7]] = true ∧
+    probe (runOps (init { Defects.beforeFix with deleteLeavesIndex := false } 1)
+      [.new 0 1 0 [5], .new 0 2 0 [6], .del 0 2, .new 0 3 0 [7], .del 0 1, .upd 0 3 [5, 7]]).1 0 5 = [([3], [3])] := by
+  decide
+
+-- (b) ingestion of new rows and of newer versions, both ways
+example : admissibleRun (init { Defects.beforeFix with ingestUnindexed := false } 2)
+      [.new 0 1 0 [5], .new 0 2 0 [6], .pull 1 0, .upd 1 1 [6, 7], .new 1 3 0 [5], .pull 0 1] = true ∧
+    probe (runOps (init { Defects.beforeFix with ingestUnindexed := false } 2)
+      [.new 0 1 0 [5], .new 0 2 0 [6], .pull 1 0, .upd 1 1 [6, 7], .new 1 3 0 [5], .pull 0 1]).1 0 6
+      = [([2, 1], [2, 1]), ([2, 1], [2, 1])] := by decide
+
+-- (a)+(b) synchronised deletion records, the slot reused by a synchronised row
+example : admissibleRun (init { Defects.beforeFix with deleteLeavesIndex := false, ingestUnindexed := false } 2)
+      [.new 0 1 0 [5], .pull 1 0, .del 0 1, .new 0 2 0 [6], .pull 1 0] = true ∧
+    probe (runOps (init { Defects.beforeFix with deleteLeavesIndex := false, ingestUnindexed := false } 2)
+      [.new 0 1 0 [5], .pull 1 0, .del 0 1, .new 0 2 0 [6], .pull 1 0]).1 0 5 = [([], []), ([], [])] := by decide
+
+-- (c) a model version that declares an index for an entity that has no row yet, then rows of it, everything else too
+example : admissibleRun (init afterFixes 2)
+      [.new 0 1 0 [5], .model 0 2, .new 0 2 1 [5, 6], .model 1 2, .pull 1 0, .del 0 1, .upd 1 2 [6], .pull 0 1,
+       .model 1 2] = true ∧
+    flagSafeRun (init afterFixes 2)
+      [.new 0 1 0 [5], .model 0 2, .new 0 2 1 [5, 6], .model 1 2, .pull 1 0, .del 0 1, .upd 1 2 [6], .pull 0 1,
+       .model 1 2] = true ∧
+    probe (runOps (init afterFixes 2)
+      [.new 0 1 0 [5], .model 0 2, .new 0 2 1 [5, 6], .model 1 2, .pull 1 0, .del 0 1, .upd 1 2 [6], .pull 0 1]).1 1 6
+      = [([2], [2]), ([2], [2])] := by decide
+
+-- and a model version the guard refuses after the repairs: `Note` gets an index while row 1 of it exists
+example : admissibleRun (init afterFixes 1) [.new 0 1 1 [5], .model 0 2] = false := by decide
 
 -- nested search: parent 1 ("w5") references children 2 ("w6") and 3 ("w5 w7"); the parent's own text is not what counts
 example : ((runOps (init Defects.asImplemented 1)
@@ -138,5 +276,10 @@ example : ((runOps (init Defects.asImplemented 1)
 example : probe (runOps (init Defects.none 2)
       [.new 0 1 0 [5], .new 0 2 0 [6], .del 0 2, .new 0 3 0 [7], .pull 1 0, .upd 1 1 [6, 5], .pull 0 1,
        .model 0 1, .model 0 0]).1 0 6 = [([1], [1]), ([1], [1])] := by decide
+
+-- `extract_json` on `{"a":"x","b":[1,"y",{"k":"z"},null],"c":true}`: keys, numbers, booleans and null give nothing
+example : extractJson (.obj (.cons ['a'] (.str ['x']) (.cons ['b']
+      (.arr (.cons (.num 1) (.cons (.str ['y']) (.cons (.obj (.cons ['k'] (.str ['z']) .nil)) (.cons .null .nil)))))
+      (.cons ['c'] (.bool true) .nil)))) = "x y z ".toList := by decide
 
 end Discret.Fts
